@@ -256,7 +256,7 @@ impl Monitor for C06 {
         vec![("pairs", tier.pick(420_000, 8_400_000)), ("grid", tier.pick(70_000, 700_000))]
     }
     fn rule(&self) -> &'static str {
-        "pairs: case = (objective, family, length 1..8 or (every third block) from {9,15..17,31,33,63..65,127..129,255,257,1000,1023,1025,4097}, flat or 3-D factorisation); families for AE/MAE/MSE/RMSE: random (scales 1e-3..1e5), some-equal, ulp-differences, tiny-differences (1e-44..1e-10), large-magnitudes (1e8..1e15), boundary-grid; for CE/BCE/KL: random-interior, one-hot-target, boundary-grid {0,1,1e-6,1-1e-6,denormals,..}, equal-pairs, exact-zeros-and-ones, distributions. Every case: loss vs documented formula (running f32 error bound), loss finite, gradient vs documented formula (1e-5 + n eps relative), gradient shape == prediction shape, a clamp interval applied (symmetric, narrow, degenerate, half-line [0,MAX], random, one-sided with an infinite bound, (-inf,inf)): loss unchanged and gradient == unclamped gradient limited to the interval bit-for-bit; interior cases of AE/MSE/BCE/KL additionally: gradient == dual-number derivative of the documented loss and ~ central difference of the library's own loss(). Every fourth case evaluates ONE objective value on three pairs of different sizes and layouts in a row (loss and gradient of each against the documented formulas). grid: full product of boundary values for vectors of length <= 3. Distinct = distinct (objective, family, shape, data hash)."
+        "pairs: case = (objective, family, length 1..8 or (every third block) from {9,15..17,31,33,63..65,127..129,255,257,1000,1023,1025,4097}, flat or 3-D factorisation); families for AE/MAE/MSE/RMSE: random (scales 1e-3..1e5), some-equal, ulp-differences, tiny-differences (1e-44..1e-10), large-magnitudes (1e8..1e15), boundary-grid; for CE/BCE/KL: random-interior, one-hot-target, boundary-grid {0,1,1e-6,1-1e-6,denormals,..}, equal-pairs, exact-zeros-and-ones, distributions. Every case: loss vs documented formula (running f32 error bound), loss finite, gradient vs documented formula (1e-5 + n eps relative), gradient shape == prediction shape, a clamp interval applied (symmetric, narrow, degenerate, half-line [0,MAX], random, one-sided with an infinite bound, (-inf,inf)): loss unchanged and gradient == unclamped gradient limited to the interval bit-for-bit; interior cases of AE/MSE/BCE/KL additionally: gradient == dual-number derivative of the documented loss and ~ central difference of the library's own loss(). Every fourth case applies a clamp to raw scores (predictions up to 5, targets up to 3, outside the probabilistic domain): clamped gradient == unclamped gradient limited to the interval. Every fourth case evaluates ONE objective value on three pairs of different sizes and layouts in a row (loss and gradient of each against the documented formulas). grid: full product of boundary values for vectors of length <= 3. Distinct = distinct (objective, family, shape, data hash)."
     }
     fn assumptions(&self) -> Vec<&'static str> {
         vec![
@@ -291,6 +291,27 @@ impl Monitor for C06 {
                         out.count("back_to_back_calls_in_two_layouts", 1);
                         if b.2 != sh_dims(other) || !b.3 || a.2 != sh_dims(sh) {
                             out.viol(&format!("obj:{}:grad:shape:after-other-layout", obj.name()), format!("{}: loss() on shape {:?} directly after the same numbers in shape {:?} returns a gradient of shape {:?}", obj.name(), sh_dims(other), sh_dims(sh), b.2), J::obj().set("prediction", J::f32s(&p)).set("target", J::f32s(&t)));
+                        }
+                    }
+                }
+                // the clamp clause does not depend on the values being in the objective's domain:
+                // raw scores and targets outside [0,1] (magnitudes up to 5) - the clamped gradient
+                // must be the unclamped one limited to the interval, for every objective
+                if idx % 4 == 2 {
+                    let m = rng.range(1, 8);
+                    let pr: Vec<f32> = (0..m).map(|_| rng.f32_in(0.05, 5.0) * if obj.probabilistic() { 1.0 } else if rng.bool() { 1.0 } else { -1.0 }).collect();
+                    let tg: Vec<f32> = (0..m).map(|_| rng.f32_in(0.0, 3.0) * if obj.probabilistic() { 1.0 } else if rng.bool() { 1.0 } else { -1.0 }).collect();
+                    let shr = if rng.bool() { Sh::Flat(m) } else { factor(&mut rng, m) };
+                    let (lo, hi) = *rng.pick(&[(-1.0f32, 1.0f32), (-2.0, 5.0), (-1.0, 2.0), (-0.5, 0.5), (-3.0, 1.0), (-1.5, 1.5)]);
+                    if let (Ok(u), Ok(c)) = (lib_loss(obj, None, shr, &pr, &tg), lib_loss(obj, Some((lo, hi)), shr, &pr, &tg)) {
+                        out.count("clamp_checks_on_raw_scores", 1);
+                        let want: Vec<f32> = u.1.iter().map(|g| if g.is_nan() { *g } else { g.max(lo).min(hi) }).collect();
+                        if !bits_eq(&c.1, &want) && !c.1.iter().zip(want.iter()).all(|(a, b)| a == b || (a.is_nan() && b.is_nan())) {
+                            out.viol(
+                                &format!("obj:{}:clamp:value:raw-scores", obj.name()),
+                                format!("{} with clamp ({},{}) on raw scores: the clamped gradient differs from the unclamped gradient limited to the interval", obj.name(), lo, hi),
+                                J::obj().set("prediction", J::f32s(&pr)).set("target", J::f32s(&tg)).set("unclamped", J::f32s(&u.1)).set("clamped", J::f32s(&c.1)),
+                            );
                         }
                     }
                 }
